@@ -30,7 +30,7 @@ ASSUMPTIONS = [
     "not judged (statement/documentation silent): options within 1e-9 of the value, '!=' inside the tolerance, strict "
     "comparisons exactly on a threshold that was unit-converted, intermediate values violating a !condition or a "
     "dimension bound, property lines after a modification, unanchored formats, conditions/options on arrays, "
-    "values 0 / none (C14), values with MORE axes than declared, a missing dimension that is declared without "
+    "value 0 (C14), none against !condition / !format, values with MORE axes than declared, a missing dimension that is declared without "
     "any bound ([:]), the accept direction for int-node options that are not integral in the node's unit",
 ]
 
@@ -928,7 +928,8 @@ MANIFEST = dict(
          "bool), equality (options, ==, !=, <=, >=) on values of magnitude 1e-12, 1e-9, 1e-7 (unit-less and ns/us/s) "
          "and 1e7, the empty string as final value against formats that require / allow it, option lists given by "
          "reference (`!options {?arr}` / `= {?x}`: source with/without unit, stated unit, slice, modified source; node "
-         "in the same / another / no unit), number-looking strings (007, 1.10, 1e3, -0, nan ...) in == / != / options, "
+         "in the same / another / no unit), number-looking strings (007, 1.10, 1e3, -0, nan ...) in == / != / options, the same numerals listed as "
+         "options in different units, none as final value of a node with options (must fail), "
          "int nodes against thresholds/options that are not integral in the node's unit (250 cm, "
          "2500 mm, 0.0025 km vs m), three anchored !format expressions, all dimension-bound forms incl. values that "
          "lack a bounded declared dimension (scalar / flat list, also via modification and sliced injection), "
